@@ -43,7 +43,10 @@ def call(ex, st, fn, args, kw, node):
             yield st, isinstance(v, _dec.Decimal); return
         if tn in ("bytes", "bytearray", "float", "list", "tuple", "dict"):
             if isinstance(v, Sym) and v.ty.kind in ("str", "int", "bool", "dec", "real"): yield st, False; return
-            if isinstance(v, (str, int)): yield st, False; return
+            if isinstance(v, (str, int)) or v is None: yield st, False; return
+            if isinstance(v, (tuple, list, dict)) and not isinstance(v, Opaque): yield st, type(v).__name__ == tn; return
+            if isinstance(v, UFL): yield st, tn == "list"; return
+            if isinstance(v, UFDict): yield st, tn == "dict"; return
         if tn == "int":
             if isinstance(v, Sym) and v.ty.kind == "opt" and v.ty.args[0].kind == "int": yield st, Sym(BOOL, z3.Not(sort_of(v.ty).is_none(v.z))); return
             if isinstance(v, Sym): yield st, v.ty.kind == "int"; return
@@ -71,6 +74,8 @@ def call(ex, st, fn, args, kw, node):
     if name == "enumerate":
         start = args[1] if len(args) > 1 else kw.get("start", 0)
         from .symexec import FallibleIter
+        if isinstance(args[0], (list, tuple)) and not isinstance(args[0], Opaque) and isinstance(start, int):
+            yield st, [(i, x) for i, x in enumerate(args[0], start)]; return        # concrete sequence: concrete pairs (the loop is unrolled)
         if isinstance(args[0], FallibleIter):
             yield st, FallibleIter(EnumerateOf(ex.as_ufl(st, args[0].seq), start), args[0].fail_at, args[0].raise_fn); return
         yield st, EnumerateOf(ex.as_ufl(st, args[0]), start); return
